@@ -155,11 +155,11 @@ PROPS = {
                  'T8 rely: at every lock acquisition the store may have become ANY store satisfying the invariant (other threads keep the invariant); guarantee: this thread keeps it (lemmas of unit ptlookup)'],
     ),
     'C04': dict(
-        vx_units=['iobuffers', 'fusedevw', 'asyncdevw', 'virtiofsw', 'virtiofsw_async'], kx=['file_buf'],
+        vx_units=['iobuffers', 'fusedevw', 'asyncdevw', 'virtiofsw', 'virtiofsw_async', 'writerenum'], kx=['file_buf'],
         design_ref='DESIGN.md A.4',
         not_covered=[
             'IoBuffers::available_bytes (iterator fold): assumed contract (returns the number of addresses still covered when that fits in usize)',
-            'Reader::{read, read_obj} (closure captures &mut buf, MaybeUninit), VirtioFsWriter::{write_vectored, write_obj, new}, Reader::from_descriptor_chain (descriptor chain -> slices), the Writer enum dispatch',
+            'Reader::{read, read_obj} (closure captures &mut buf, MaybeUninit), VirtioFsWriter::{write_vectored, write_obj, new}, Reader::from_descriptor_chain (descriptor chain -> slices)',
             'contents of the bytes a file transfer appends (that the file fills exactly what it reports is assumed); FuseDevWriter::write_all_from on an UNBUFFERED writer (stated as a precondition: a second round trips the writer\'s own assert - public-API observation F1, not reachable through the server); slice totals >= 2^64 in write_vectored',
             'file-buffer adapters (FileVolatileSlice) as plain views: KX harnesses (see units kx:file_buf when listed), lengths up to the stated bound only',
         ],
@@ -169,10 +169,11 @@ PROPS = {
                  'write / writev / pwrite on /dev/fuse are all-or-nothing (fuse_dev_do_write); Vec capacity/base uninterpreted with len <= capacity; Vec::set_len by assume_specification; std Write::write_all as a hand copy of the std text'],
     ),
     'C17': dict(
-        vx_units=['iobuffers', 'virtiofsw', 'virtiofsw_async'], kx=[],
+        vx_units=['iobuffers', 'virtiofsw', 'virtiofsw_async', 'writerenum'], kx=[],
+        alias=[r'^C04\.writer\.', r'^C20\.writer\.'],      # the Writer enum hands the operation to the wrapped writer unchanged (a wrong forward loses or misplaces the marking)
         design_ref='DESIGN.md A.4',
         not_covered=[
-            'VirtioFsWriter::write_vectored and write_obj (fold / std write_all; they only call write); the Writer enum dispatch',
+            'VirtioFsWriter::write_vectored and write_obj (fold / std write_all; they only call write)',
             'VirtioFsWriter::new and Reader::from_descriptor_chain (descriptor chain -> slices; the source of the chain-length invariant bytes_consumed + available <= usize::MAX, a hypothesis of the err_unmarked clauses)',
             'async_write_all (std write_all over write); Reader::async_read_to_at / prepare_io_buf (reads; never mark); that the AsyncFileReadWriteVolatile impl for File (io-uring) fills exactly the reported prefix (assumed)',
             'the counter-overflow error path of mark_used after marking; Reader::read and read_obj (closure captures &mut, MaybeUninit)',
@@ -231,7 +232,7 @@ PROPS = {
                  'cargo feature `persist` switched on for these units only; rules R33 (iter().map().collect() as an index loop) and R34 (`if C { continue; } REST` as if/else)'],
     ),
     'C20': dict(
-        vx_units=['asyncsrv', 'asyncdevw', 'asyncarcfs', 'asyncvfs', 'server', 'arcfs', 'vfs'], kx=[],
+        vx_units=['asyncsrv', 'asyncdevw', 'asyncarcfs', 'asyncvfs', 'server', 'arcfs', 'vfs', 'writerenum'], kx=[],
         design_ref='DESIGN.md A.4',
         not_covered=[
             'which error reply (or none) a MALFORMED request gets: the specification allows any well-formed error reply there, so two different ones would both verify (by reading, the two paths are identical)',
